@@ -335,7 +335,39 @@ def _init_only_assignment(ctx: Ctx, c: Class):
 
 
 # ------------------------------------------------------------------------------------------ effects
-def _fresh_local(fn, name: str) -> bool:
+def _fresh_value(v) -> bool:
+    return isinstance(v, (ast.List, ast.Dict, ast.Set, ast.ListComp, ast.DictComp, ast.SetComp)) or (
+        isinstance(v, ast.Call) and isinstance(v.func, ast.Name) and v.func.id in ("list", "dict", "set", "defaultdict", "Counter", "deque") and not v.args)
+
+
+def _inner_of_fresh(fn, v, _depth: int = 0) -> bool:
+    """`X.setdefault(k, <new container>)` / `X.get(k, <new container>)` / `X[k]` where X is a fresh local container into which this
+    function only ever puts containers it builds itself (so the inner value cannot be an object of an earlier state)."""
+    x = None
+    if isinstance(v, ast.Call) and isinstance(v.func, ast.Attribute) and v.func.attr in ("setdefault", "get", "pop") and isinstance(v.func.value, ast.Name):
+        if len(v.args) >= 2 and not _fresh_value(v.args[1]):
+            return False
+        if v.func.attr == "get" and len(v.args) < 2:
+            return False
+        x = v.func.value.id
+    elif isinstance(v, ast.Subscript) and isinstance(v.value, ast.Name):
+        x = v.value.id
+    if x is None or not _fresh_local(fn, x, _depth + 1):
+        return False
+    for n in ast.walk(fn.node):
+        if isinstance(n, ast.Assign):
+            for t in n.targets:
+                if isinstance(t, ast.Subscript) and isinstance(t.value, ast.Name) and t.value.id == x and not _fresh_value(n.value):
+                    return False
+        elif isinstance(n, ast.Call) and isinstance(n.func, ast.Attribute) and isinstance(n.func.value, ast.Name) and n.func.value.id == x:
+            if n.func.attr == "setdefault" and len(n.args) >= 2 and not _fresh_value(n.args[1]):
+                return False
+            if n.func.attr in ("update", "append", "add", "extend", "insert"):
+                return False
+    return True
+
+
+def _fresh_local(fn, name: str, _depth: int = 0) -> bool:
     """Every binding of `name` in the function is a freshly built container (literal, comprehension, constructor
     call, copy) — never a parameter, an attribute read or another variable."""
     if name in fn.params:
@@ -358,6 +390,8 @@ def _fresh_local(fn, name: str) -> bool:
     for v in binds:
         if isinstance(v, (ast.List, ast.Dict, ast.Set, ast.ListComp, ast.DictComp, ast.SetComp, ast.Tuple, ast.Constant, ast.BinOp, ast.JoinedStr)):
             continue
+        if _depth < 3 and _inner_of_fresh(fn, v, _depth):
+            continue  # an inner container of a local container that was built here and holds nothing but containers built here
         if isinstance(v, ast.Call):
             d = dotted(v.func) or (v.func.attr if isinstance(v.func, ast.Attribute) else "")
             base = d.split(".")[-1]
@@ -401,6 +435,8 @@ def effects(ctx: Ctx):
                 while isinstance(root, ast.Subscript):
                     root = root.value
                 if isinstance(root, ast.Name) and _fresh_local(owner, root.id):
+                    continue
+                if isinstance(root, ast.Call) and _inner_of_fresh(owner, root):
                     continue
                 if IMMUTABLE_T.search(t):
                     continue  # would raise at run time; not an in-place change
